@@ -422,12 +422,17 @@ def unit_resume(R, mode, with_cb, cfg=None):
                             set_content(e, VFresh('junk_%s%d' % (n, t_i), 'real'))
             havoc.keep_scalars = R.keep
             args, kw = R.call(w, o, gh if with_cb else None, cfg)
+            # caller-owned Python lists handed to the solver (operators, data, step sizes, sensitivities ...): the solver may read them, the caller reuses them for the resumed run
+            owned = []
+            for label, v in [('argument %d' % i, a) for i, a in enumerate(args)] + [('keyword %s' % k, a) for k, a in sorted(kw.items())]:
+                if isinstance(v, list):
+                    owned.append((label, v, list(v), [content(e) if isinstance(e, ip.Obj) and (hasattr(e, 'content') or hasattr(e, 'buf')) else None for e in v]))
             try:
                 r = run_with_loop(I, st, fr, I.get_func(R.func_for(cfg)), args, kw, mode, havoc=havoc, ghost=gh,
                                   declared=lambda loc: R.declared(loc, o, cfg), extra_roots=list(o.values()))
             except ip.PyRaise as e:
                 return ('raise', e.exc)
-            return ('ok', dict(w=w, fr=fr, run=r, o=o, init=init, gen=gen, ghost=gh, final={l: content(e) for l, e in o.items()}, state=cur.get('state')))
+            return ('ok', dict(w=w, fr=fr, run=r, o=o, init=init, gen=gen, ghost=gh, final={l: content(e) for l, e in o.items()}, state=cur.get('state'), owned=owned))
         info = dict(cfg, solver=R.name, mode=mode, callback=with_cb)
         for st, (status, r) in ctx.explore(path):
             if status == 'raise':
@@ -435,6 +440,13 @@ def unit_resume(R, mode, with_cb, cfg=None):
                 continue
             low = st.lower
             fr, w, rr, o, gen = r['fr'], r['w'], r['run'], r['o'], r['gen']
+            for label, lst, items0, conts0 in r.get('owned', []):
+                same = len(lst) == len(items0) and all(a is b for a, b in zip(lst, items0))
+                ctx.prove(st, '%s: the caller\'s list (%s) still holds the very objects it was given' % (mode, label), same, dict(info, got=repr(lst)[:200]))
+                if mode == 'init':
+                    for j, (e, c0) in enumerate(zip(items0, conts0)):
+                        if c0 is not None and not any(e is oe for oe in o.values()):
+                            ctx.prove(st, 'init: entry %d of the caller\'s list (%s) is not modified by the pre-loop code' % (j, label), eqv(low, rr.head_content.get(id(e), content(e)), c0), info)
             if mode == 'init':
                 for l in o:
                     ctx.prove(st, 'init: caller\'s %s untouched by the pre-loop code' % l, eqv(low, rr.head_content[id(o[l])], r['init'][l]), info)
